@@ -66,7 +66,10 @@ RunsFor(k) ==
         Run("variants", "gb", TRUE, 7, 22, FALSE, 0, 1, FALSE), Run("variants", "gb", FALSE, 10, -1, FALSE, 0, 1, FALSE),
         Run("variants", "gb", FALSE, -1, 12, FALSE, 0, 1, FALSE), Run("samvar", "gb", FALSE, 10, -1, FALSE, 0, 1, FALSE),
         Run("variants", "gb", TRUE, -1, -1, TRUE, 0, 3, FALSE), Run("variants", "gb", FALSE, -1, -1, TRUE, 12, 1, FALSE),
-        Run("variants", "gb", TRUE, -1, -1, FALSE, 0, 1, TRUE), Run("samvar", "gb", TRUE, -1, -1, TRUE, 6, 2, FALSE) >>)
+        Run("variants", "gb", TRUE, -1, -1, FALSE, 0, 1, TRUE), Run("samvar", "gb", TRUE, -1, -1, TRUE, 6, 2, FALSE),
+        Run("samvar", "gb", TRUE, -1, 17, FALSE, 0, 1, FALSE), Run("samvar", "gb", TRUE, 2, 16, FALSE, 0, 2, FALSE),
+        Run("samvar", "gb", TRUE, 10, -1, FALSE, 0, 1, FALSE),
+        Run("topa-variants", "gb", TRUE, -1, 17, FALSE, 0, 1, FALSE), Run("variants", "gb", FALSE, 2, 16, FALSE, 0, 1, FALSE) >>)
   \o << Run("variants", "gff", FALSE, -1, -1, FALSE, 0, 1, FALSE), Run("variants", "gff", TRUE, -1, -1, FALSE, 0, 2, FALSE),
         Run("samvar", "gff", TRUE, -1, -1, FALSE, 0, 1, FALSE), Run("samvar-annoref", "gff", TRUE, -1, -1, FALSE, 0, 1, FALSE) >>
   \o (IF k = 10 THEN <<>> ELSE      \* (rows in coordinate order do not describe a gene whose first segment lies downstream)
